@@ -217,7 +217,8 @@ PROPS = {
         ],
         "units": [
             regress("C12"),
-            {"run": "^TestC12$", "quick": 600, "thorough": 5000, "race": True},
+            {"run": "^TestC12$", "quick": 400, "thorough": 5000, "race": True},
+            {"run": "^TestC12Fresh$", "quick": 1, "thorough": 1, "race": True, "rapid": False},
         ],
     },
     "C13": {
